@@ -208,7 +208,12 @@ class Report:
             json.dump(data, f, indent=1, default=str)
         return os.path.relpath(path, VERIF_ROOT)
 
+    MAX_LINES = 12
+
     def violation(self, ident, replay_data, no_input=False):
+        if len(self.violations) >= self.MAX_LINES:
+            self.violations.append((ident, None))
+            return
         path = self.write_replay(ident, replay_data)
         tail = " no-failing-input-found" if no_input else ""
         self.violations.append((ident, path))
